@@ -43,6 +43,7 @@ type c17case struct {
 	Records int
 	Mode    colmodel.Mode
 	Prior   bool // a valid all-known template with the same id was accepted before
+	Other   bool // another template (id 301) announced the same unknown elements with different widths before
 }
 
 func c17build(c c17case) (tmsg, dmsg []byte, names []string) {
@@ -104,10 +105,17 @@ func c17run(c c17case) *xplore.Violation {
 			return v
 		}
 		ic, _ := colcheck.ImplCanon(cp.VerifTemplates())
-		if ic != model.Canon() {
+		if ic != model.Canon() && ic != model.CanonReading(true) {
 			return xplore.V("store-mismatch", "%s: template table %s, model %s", what, ic, model.Canon())
 		}
 		return nil
+	}
+	if c.Other {
+		other := refcodec.TemplateMsg(refcodec.Header{ExportTime: 3, Seq: 0, Domain: 3}, refcodec.Template{ID: 301, Fields: []refcodec.FieldSpec{
+			{ID: 999, Len: 65535}, {ID: 998, Len: 4}, {ID: 77, PEN: 4242, Len: 65535}, {ID: 78, PEN: 4242, Len: 6}, {ID: 999, PEN: 56506, Len: 7}}})
+		if v := step("other template", other); v != nil {
+			return v
+		}
 	}
 	if c.Prior {
 		// an earlier, valid definition of the same template id (its records are 6 bytes: u16, u32)
@@ -163,9 +171,12 @@ func runC17(tier, replay string) int {
 			for rot := 0; rot < rots; rot++ {
 				for _, nrec := range []int{1, 2} {
 					for _, m := range []colmodel.Mode{colmodel.Strict, colmodel.Keep, colmodel.Drop} {
-						cases = append(cases, c17case{append([]int{}, prefix...), rot, nrec, m, false})
+						cases = append(cases, c17case{append([]int{}, prefix...), rot, nrec, m, false, false})
 						if nrec == 1 && rot == 0 {
-							cases = append(cases, c17case{append([]int{}, prefix...), rot, nrec, m, true})
+							cases = append(cases, c17case{append([]int{}, prefix...), rot, nrec, m, true, false})
+						}
+						if nrec == 1 && rot <= 1 && m != colmodel.Strict {
+							cases = append(cases, c17case{append([]int{}, prefix...), rot, nrec, m, false, true})
 						}
 					}
 				}
@@ -226,7 +237,7 @@ func runC17(tier, replay string) int {
 	ev.Coverage = common.Coverage{
 		"states": len(tmplSeen), "transitions": 2 * len(cases), "traces_validated_against_impl": len(cases), "samples": samples,
 		"evaluations": len(cases), "distinct_nontrivial": len(cases),
-		"rule":       fmt.Sprintf("every template of arity 1..%d over 7 element kinds {known u16, known string, unknown IANA fixed(3), unknown IANA variable, unknown enterprise fixed(5), unknown enterprise variable, unknown id in a known enterprise} at every position x variable-length value rotations over {0,1,254,255,300} x {1,2} records x {strict, keep, drop}, and each template also after an earlier valid definition of the same id; each case = template message then data message on a fresh real collector, judged by the colmodel/refcodec reference (strict: template with any unknown rejected and the data after it rejected; keep: unknown fields delivered as octet arrays with exactly the received bytes; drop: exactly the unknown fields absent; known fields always their reference value). states = distinct templates; cases are distinct by construction", maxAr),
+		"rule":       fmt.Sprintf("every template of arity 1..%d over 7 element kinds {known u16, known string, unknown IANA fixed(3), unknown IANA variable, unknown enterprise fixed(5), unknown enterprise variable, unknown id in a known enterprise} at every position x variable-length value rotations over {0,1,254,255,300} x {1,2} records x {strict, keep, drop}, and each template also after an earlier valid definition of the same id and (lenient modes) after another template that announced the same unknown elements with different widths; each case = template message then data message on a fresh real collector, judged by the colmodel/refcodec reference (strict: template with any unknown rejected and the data after it rejected; keep: unknown fields delivered as octet arrays with exactly the received bytes; drop: exactly the unknown fields absent; known fields always their reference value). states = distinct templates; cases are distinct by construction", maxAr),
 		"exhaustive": true, "accepted_cases": accepted, "strict_rejected_cases": rejected,
 	}
 	ev.WallS = common.Since(rep.Start)
